@@ -31,9 +31,18 @@ The table is a list of flows, each identified by the match **as transmitted** an
   `OFPFMFC_BAD_EMERG_TIMEOUT` (mandated), every other one with an implementation-chosen `OFPET_FLOW_MOD_FAILED` code
   (`EPERM` when it also asks for flow-removed, `ALL_TABLES_FULL` otherwise).  No emergency flow is ever installed.
 * "identical header fields": the two descriptions denote the same set of packets (each subsumes the other), so that encodings
-  differing only in ignored bits are the same flow. -/
+  differing only in ignored bits are the same flow.
+* **buffer_id** (§5.3.3 "buffered packet to apply to"; §5.4.4 `OFPBRC_BUFFER_EMPTY` "specified buffer has already been used",
+  `OFPBRC_BUFFER_UNKNOWN` "specified buffer does not exist"): a flow-mod that names a buffer has the packet stored under that id
+  processed by the flow-mod's own actions and the buffer released; an id never handed out is answered `BUFFER_UNKNOWN`, one already
+  used `BUFFER_EMPTY`.  The standard does not say whether this also happens when the command itself is refused or is a DELETE
+  ("not meaningful"): this transcription does it for every defined command, as the code does; the flow's counters are not
+  touched.  A table miss stores the frame and announces the id in the packet-in; which id is the switch's choice — the store
+  and its allocation policy are C18's `BufPool.Pool` / `alloc` (shared component, proved there).
+* an undefined `command` is refused with `OFPFMFC_BAD_COMMAND` and nothing else happens. -/
 namespace Pox.Spec
 open Pox.OF Pox.FlowMod
+open Pox.BufPool (Pool alloc)
 
 /-! ## relations between two transmitted matches -/
 
@@ -80,6 +89,8 @@ structure STable where
   flows : List SFlow
   now : Nat
   capacity : Nat
+  /-- packets stored for the controller, by buffer id -/
+  buffers : Pool BFrame
 
 /-- `ofp_flow_removed` (§5.4.2) -/
 structure SRemoved where
@@ -111,7 +122,8 @@ structure SFlowStat where
 inductive SOut where
   | flowRemoved (m : SRemoved)
   | error (etype code : Nat)
-  | packetIn (inPort : Nat)
+  | packetIn (inPort : Nat) (bufferId : Option Nat)
+  | release (id : Nat) (frame : BFrame) (actions : List Action)
   | flowStats (l : List SFlowStat)
   | aggStats (packets bytes flows : Nat)
   deriving DecidableEq, Repr
@@ -200,7 +212,9 @@ def account (hit : SFlow → Bool) (len now : Nat) : List SFlow → List SFlow
 def receive (t : STable) (p : PHdr) (inPort len : Nat) : STable × List SOut :=
   let hit := fun (f : SFlow) => matchHdr f.mtch (headers p inPort)
   if t.flows.any hit then ({ t with flows := account hit len t.now t.flows }, [])
-  else (t, [.packetIn inPort])
+  else
+    let a := alloc t.buffers { hdr := p, len := len, inPort := inPort }
+    ({ t with buffers := a.1 }, [.packetIn inPort a.2])
 
 def statOf (now : Nat) (f : SFlow) : SFlowStat :=
   { mtch := f.mtch, durSec := (now - f.installed) / 1000, durNsec := (now - f.installed) % 1000 * 1000000,
@@ -211,14 +225,39 @@ def statOf (now : Nat) (f : SFlow) : SFlowStat :=
 def statFlows (t : STable) (m : OfMatch) (outPort : Nat) : List SFlow :=
   t.flows.filter fun f => subsumes m f.mtch && portOk outPort f
 
+/-- the packet stored under buffer id `id`, if any -/
+def stored (t : STable) (id : Nat) : Option BFrame := if id = 0 then none else (t.buffers.slots[id - 1]?).join
+
+/-- apply `actions` to the packet stored under `id` and release the buffer -/
+def applyBuffer (t : STable) (id : Nat) (actions : List Action) : STable × List SOut :=
+  match stored t id with
+  | some f => ({ t with buffers := { t.buffers with slots := t.buffers.slots.set (id - 1) none } }, [.release id f actions])
+  | none =>
+    if id ≠ 0 ∧ id - 1 < t.buffers.slots.length then (t, [.error OFPET_BAD_REQUEST OFPBRC_BUFFER_EMPTY])
+    else (t, [.error OFPET_BAD_REQUEST OFPBRC_BUFFER_UNKNOWN])
+
+/-- the command of a flow-mod -/
+def command (t : STable) (fm : FlowModMsg) : STable × List SOut :=
+  match fm.cmd with
+  | .add => add t fm
+  | .modify => modify t fm false
+  | .modifyStrict => modify t fm true
+  | .delete => delete t fm false
+  | .deleteStrict => delete t fm true
+  | .unknown _ => failed t OFPFMFC_BAD_COMMAND
+
+/-- OFPT_FLOW_MOD: the command, then the named buffer -/
+def flowMod (t : STable) (fm : FlowModMsg) : STable × List SOut :=
+  match fm.cmd, fm.bufferId with
+  | .unknown _, _ => command t fm
+  | _, none => command t fm
+  | _, some id =>
+    let r := command t fm
+    let b := applyBuffer r.1 id fm.actions
+    (b.1, r.2 ++ b.2)
+
 def step (t : STable) : Op → STable × List SOut
-  | .flowMod fm =>
-    (match fm.cmd with
-     | .add => add t fm
-     | .modify => modify t fm false
-     | .modifyStrict => modify t fm true
-     | .delete => delete t fm false
-     | .deleteStrict => delete t fm true)
+  | .flowMod fm => flowMod t fm
   | .packet p inPort len => receive t p inPort len
   | .advance dt => ({ t with now := t.now + dt }, [])
   | .sweep => expire t
